@@ -22,6 +22,7 @@ type cfg struct {
 	limit    uint64        // --max-iterations
 	conc     int
 	cancelAt time.Duration // caller cancels the context at this virtual instant (-1: never)
+	pre      bool          // the caller's context is already cancelled when Do is called
 	body     string        // instant | sleep30 | sleeplong | forever
 	setup    string        // ok | fail | panic
 	ct       time.Duration // completion timeout
@@ -32,7 +33,11 @@ func (c cfg) name() string {
 	if c.rate != "" {
 		return fmt.Sprintf("run/%s(%s)/maxdur=%s/limit=%d/c=%d/cancel=%s/body=%s/setup=%s/ct=%s", c.mode, c.rate, c.maxDur, c.limit, c.conc, c.cancelAt, c.body, c.setup, c.ct)
 	}
-	return fmt.Sprintf("run/%s/maxdur=%s/limit=%d/c=%d/cancel=%s/body=%s/setup=%s/ct=%s", c.mode, c.maxDur, c.limit, c.conc, c.cancelAt, c.body, c.setup, c.ct)
+	pre := ""
+	if c.pre {
+		pre = "/cancelled-before-Do"
+	}
+	return fmt.Sprintf("run/%s/maxdur=%s/limit=%d/c=%d/cancel=%s/body=%s/setup=%s/ct=%s%s", c.mode, c.maxDur, c.limit, c.conc, c.cancelAt, c.body, c.setup, c.ct, pre)
 }
 
 const fileYAML = `scenario: s
@@ -127,6 +132,9 @@ func scenario(c cfg) vrt.Scenario {
 		}
 		ctx, cancel := vctx.WithCancel(vctx.Background())
 		defer cancel()
+		if c.pre {
+			cancel()
+		}
 		if c.cancelAt >= 0 {
 			vrt.GoNamed("caller-cancel", func() {
 				if c.cancelAt > 0 {
@@ -249,6 +257,11 @@ func oracle(c cfg, o *vrt.Outcome) {
 	if returned && !tornDown {
 		o.Fail("C05/teardown-not-last", "never", "Do returned but the setup cleanups never ran")
 	}
+	// a triggering window that is empty from the outset (max-duration within the 10 ms guard, or a
+	// context that was cancelled before Do): a rate-driven trigger requests nothing at all, in any schedule
+	if (c.pre || c.maxDur <= 10*time.Millisecond) && c.mode != "users" && !strings.HasPrefix(c.mode, "file") && nbegin > 0 {
+		o.Fail("C05/starts-after-stop", "empty-window", fmt.Sprintf("%d iterations started although the triggering window was over before it began", nbegin))
+	}
 	if o.Cost == 0 && beginsAfterStop > c.conc {
 		o.Fail("C05/starts-after-stop", "more-than-workers", fmt.Sprintf("%d iterations started after the run announced it had stopped triggering (concurrency %d)", beginsAfterStop, c.conc))
 	}
@@ -349,6 +362,12 @@ func scenariosFor(tier string) []vrt.Scenario {
 	add(b, cfg{mode: "constant", maxDur: ms(2000), cancelAt: ms(150), body: "sleeplong"})
 	add(b-1, cfg{mode: "file-users-first", maxDur: ms(2000), cancelAt: never, body: "sleeplong", conc: 2})
 	add(b-1, cfg{mode: "users", maxDur: ms(2000), cancelAt: ms(0), body: "sleep30", conc: 2}) // the interrupt lands while the pool is starting up
+	// the triggering window is over before it begins
+	add(b, cfg{mode: "constant", maxDur: ms(10), cancelAt: never, body: "sleep30", conc: 2})
+	add(b, cfg{mode: "constant", maxDur: ms(5), cancelAt: never, body: "instant"})
+	add(b, cfg{mode: "constant", maxDur: ms(500), cancelAt: never, body: "sleep30", pre: true})
+	add(b, cfg{mode: "users", maxDur: ms(500), cancelAt: never, body: "sleep30", pre: true})
+	add(b, cfg{mode: "users", maxDur: ms(10), cancelAt: never, body: "sleep30"})
 	if quick {
 		add(0, cfg{mode: "ramp", maxDur: ms(500), cancelAt: never, body: "sleep30"})
 		add(0, cfg{mode: "gaussian", maxDur: ms(500), cancelAt: never, body: "sleep30"})
